@@ -482,6 +482,7 @@ func runProviderVia(dec config.DecoderType, file []byte, k int, preload bool, he
 					}
 					req, sample := rq.Request()
 					line := canonReq(req) + ",t=" + hx([]byte(sample.Tags()))
+					c07ShootLikeAGun(req)
 					p.Release(a)
 					mu.Lock()
 					reqs = append(reqs, line)
@@ -502,6 +503,7 @@ func runProviderVia(dec config.DecoderType, file []byte, k int, preload bool, he
 			}
 			req, sample := rq.Request()
 			reqs = append(reqs, canonReq(req)+",t="+hx([]byte(sample.Tags())))
+			c07ShootLikeAGun(req)
 			p.Release(a)
 		}
 		pending = pending[:0]
@@ -676,6 +678,7 @@ func c07Run(input string) string {
 	win, _ := strconv.Atoi(kv["win"])
 	eofd := kv["eofd"] == "1"
 	via := kv["via"]
+	c07Shoot = kv["shoot"] == "1"
 	switch kv["fmt"] {
 	case "uri":
 		return runProviderVia(config.DecoderURI, unhx(kv["file"]), k, pre, cfg, unl, rd, cons, win, eofd, via, kv["uris"] == "1")
@@ -738,6 +741,9 @@ func c07Class(input, obs string) string {
 	}
 	if kv["cfgh"] != "" {
 		c += "/headers-option"
+	}
+	if kv["shoot"] != "" {
+		c += "/shot"
 	}
 	if o["err"] != "ok" {
 		c += "/err"
@@ -1184,6 +1190,8 @@ func c07GenAll(r *rand.Rand, tier string) []string {
 	r4 := rand.New(rand.NewSource(r2.Int63()))
 	r4Decorate(out, r4)
 	out = append(out, r4Long(r4, tier)...)
+	// round 6: every second case mutates each delivered request the way a gun / middleware does after reading it
+	r6Decorate(out)
 	return out
 }
 
